@@ -1,5 +1,7 @@
 use crate::util::{Rng, RunOut};
 
+pub mod disc;
+pub mod errs;
 pub mod pod;
 pub mod token;
 
@@ -8,6 +10,8 @@ pub fn generate(prop: &str, tier: &str, rng: &mut Rng) -> Vec<String> {
         "C16" => token::generate_c16(tier, rng),
         "C17" => token::generate_c17(tier, rng),
         "C13" => pod::generate_c13(tier, rng),
+        "C18" => disc::generate(tier, rng),
+        "C19" => errs::generate(tier, rng),
         "C14" => pod::generate_c14(tier, rng),
         _ => panic!("unknown property {prop}"),
     }
@@ -17,6 +21,8 @@ pub fn run(prop: &str, cases: &[String]) -> RunOut {
     match prop {
         "C16" | "C17" => token::run(prop, cases),
         "C13" | "C14" => pod::run(prop, cases),
+        "C18" => disc::run(cases),
+        "C19" => errs::run(cases),
         _ => panic!("unknown property {prop}"),
     }
 }
